@@ -224,6 +224,13 @@ def execute(case, prop="C06"):
     with patches.installed(threads="serial"):
         w = ScenarioWorld(case["config"], log, res)
         w.setup()
+        run_history(w, case, res, log, prop)
+    res.digest = log.digest()
+    return res
+
+
+def run_history(w, case, res, log, prop, twin_factory=None):
+    if True:
         w.session = set()
         w.step_outputs = []
         shared = len(set(w.mgr_base.values())) < len(w.mgr_base)
@@ -296,8 +303,11 @@ def execute(case, prop="C06"):
             twin_ops = [op for op in case["ops"] if not foreign(op)]
             if len(twin_ops) < len(case["ops"]):
                 res.probe("session_with_foreign_operations")
-            w2 = ScenarioWorld(case["config"], EventLog(), RunResult())
-            w2.setup()
+            if twin_factory is not None:
+                w2 = twin_factory()
+            else:
+                w2 = ScenarioWorld(case["config"], EventLog(), RunResult())
+                w2.setup()
             w2.session = set()
             w2.step_outputs = []
             r2 = RunResult()
@@ -323,8 +333,6 @@ def execute(case, prop="C06"):
             w.bptk.destroy()
         except Exception:
             pass
-    res.digest = log.digest()
-    return res
 
 
 def shrink(case):
